@@ -449,7 +449,9 @@ impl PushPromise {
             src.advance(1);
         }
 
-        if src.len() < 5 {
+        // The promised stream ID; the field block fragment that follows may
+        // be empty (the block can continue in CONTINUATION frames).
+        if src.len() < 4 {
             return Err(Error::MalformedMessage);
         }
 
